@@ -1,4 +1,4 @@
-import BobModel.Proofs.C06Lock
+import BobModel.Proofs.C06Trace
 /-
 C06 — parallel builds are schedule independent and bounded.
 
@@ -151,6 +151,85 @@ theorem lock_accounting (hr : GoodRunners n r0) (h : Reach P cfg r0 st) (p : Nat
     (st.lockOf p).waiters.length = tsum (Task.waitingLock P p) st :=
   let a := (LockInv.reach hr h).at_ p
   ⟨a.locked, a.free, a.waiters⟩
+
+/-! ### 4. failures -/
+
+/-- the scheduler's own bookkeeping never raises: no task ever carries an internal exception (`ValueError` /
+`IndexError` of the semaphore, `RuntimeError` of a lock); only script failures (`BuildError`) and their
+propagation (`CancelBuildException`) occur. -/
+theorem no_internal_error (hr : GoodRunners n r0) (h : Reach P cfg r0 st) : ∀ x ∈ st.tasks, x.err ≠ some .internal :=
+  (ErrInv.reach hr h).noInternal
+
+/-- **failure_confined**, without keep-going: once a build error has been recorded `running` is cleared and
+stays cleared; from then on every `if not self.__running: raise CancelBuildException` check fails, i.e. no
+task passes the `running` check after the first failure. -/
+theorem failure_stops_build (hr : GoodRunners n r0) (h : Reach P cfg r0 st) (hk : cfg.keepGoing = false)
+    (he : 0 < st.errors) : st.running = false :=
+  (ErrInv.reach hr h).stop hk he
+
+/-- a task that reaches a `running` check while `running` is cleared raises `CancelBuildException` -/
+theorem check_fails_when_stopped {t : Nat} {rest : List Op} (hrun : st.running = false)
+    (hops : (st.task t).ops = .checkRunning :: rest) :
+    stepTask P cfg st t = some (st.setTask t (raise (st.task t) .cancel rest)) := by
+  simp [stepTask, hops, hrun]
+
+/-- **failure_confined**, with keep-going: a failure never clears `running`; tasks that do not wait for a
+failed task are not stopped. -/
+theorem keep_going_never_stops (hr : GoodRunners n r0) (h : Reach P cfg r0 st) (hk : cfg.keepGoing = true) :
+    st.running = true :=
+  (ErrInv.reach hr h).keep hk
+
+/-! ### 5. events -/
+
+/-- a `start` event enters the history only through the `run` operation at the head of the stepping task
+(it is then the only new event), an `end` event only through a `runWait` whose script has ended, a `setRun`
+event only through `setRun`; every other step appends events that concern neither. -/
+theorem events_of_a_step {st' : Sched.St} {t : Nat} (h : stepTask P cfg st t = some st') :
+    ∃ evs, st'.trace = st.trace ++ evs ∧ NewEvents P st t evs :=
+  stepTask_trace h
+
+/-! ### statements that are evaluated on every replayed and explored schedule but not (yet) proved -/
+
+/-- a workspace belongs to one variant (C16): a valid step's workspace is not shared with a step of another variant id -/
+def PathVid (P : Project) : Prop :=
+  ∀ s s', (P.info s).valid = true → (P.info s).path = (P.info s').path → (P.info s').vid = (P.info s).vid
+
+/-- **deps_first**: a script starts only after the scripts of all valid dependencies of its step ended successfully -/
+def deps_first_goal : Prop :=
+  ∀ (P : Project) (cfg : Cfg) (n : Nat) (r0 : Runners) (st : Sched.St), PathVid P → GoodRunners n r0 →
+    Reach P cfg r0 st → depsFirst P st = true
+
+/-- **once** (first half of once_and_exclusive): per workspace, starts and ends alternate and a workspace is
+started again only after a failed execution (possible when step objects with different sandboxes share it) -/
+def once_goal : Prop :=
+  ∀ (P : Project) (cfg : Cfg) (n : Nat) (r0 : Runners) (st : Sched.St), PathVid P → GoodRunners n r0 →
+    Reach P cfg r0 st → onceLegal P st = true
+
+/-- **schedule_independent**: whenever a script ended successfully its workspace holds `value` = the result
+of the sequential dataflow, for every schedule (`hval`: the dataflow equation, stated locally; equal
+workspaces have equal inputs and scripts) -/
+def schedule_independent_goal : Prop :=
+  ∀ (P : Project) (cfg : Cfg) (n : Nat) (r0 : Runners) (st : Sched.St) (value : Nat → Nat), PathVid P →
+    (∀ s, value s = P.run s ((P.info s).bidDeps.map value)) →
+    (∀ s s', (P.info s).path = (P.info s').path → value s = value s') →
+    GoodRunners n r0 → Reach P cfg r0 st →
+    ∀ t s, Ev.fin t s true ∈ st.trace → st.diskAt (P.info s).path = value s
+
+/-- `d` is `s` or a valid step below it (dependencies of invalid steps are never cooked) -/
+inductive Below (P : Project) : Nat → Nat → Prop
+  | refl (s : Nat) : Below P s s
+  | dep {s d e : Nat} : (P.info s).valid = true → d ∈ (P.info s).deps → Below P d e → Below P s e
+
+/-- DESIGN theorem 5c: with keep-going every step below a target none of whose (transitive) dependencies
+failed has been executed when the build ends.  REFUTED for model and implementation: a package step asks for
+its build-id before it cooks its dependencies, the build-id pre-pass checks out all sources below it, and a
+failing checkout there ends the whole root although sub-dependencies that are independent of the failure could
+be built (observed on implementation traces, histogram `keep-going-leaves-independent-step-unbuilt`). -/
+def keepgoing_complete_goal : Prop :=
+  ∀ (P : Project) (cfg : Cfg) (n : Nat) (r0 : Runners) (st : Sched.St), GoodRunners n r0 → cfg.keepGoing = true →
+    cfg.co0 = false → Reach P cfg r0 st → allDone st = true →
+    ∀ tg ∈ cfg.targets, ∀ s, Below P tg s → (P.info s).valid = true →
+      (∀ d t', Below P s d → Ev.fin t' d false ∉ st.trace) → finishedOk P st.trace (P.info s).path = true
 
 /-! non-vacuity: a diamond with a shared leaf, two jobs, a schedule that runs two scripts at once -/
 
